@@ -5,10 +5,16 @@ public operations of the real clikit ProgressBar under a virtual clock (mc/clock
 emits being seen write by write (with the virtual time of the write) through a recording OutputStream and
 interpreted on a terminal emulator (mc/term.py).
 
-Operation = (clock advance in ms, name, argument); the clock advance happens first, then the call:
+Operation = (clock advance in ticks, name, argument); the clock advance happens first, then the call:
     start() | start(5) | advance(1) | advance(3) | set_progress(p), p in {0, max//2, max, max+2, -1}
     | display | clear | finish | set_message(short | long | <info>tagged</info>)  (formats with %message%)
-    x clock advance in {0, 10, 50, 200, 2000} ms
+    x clock advance in {0, 10, 50, 200, 2000} ticks of 1/1024 s (0, 9.8 ms, 48.8 ms, 195 ms, 1.95 s)
+The virtual clock counts in ticks of 2**-10 s from the epoch 2**20 s, not in milliseconds: every clock reading and
+every difference of two readings is then an exact double, so what the bar computes from the clock is a function of
+the tick difference alone.  With decimal milliseconds it is not: (T0+0.15)-(T0+0.05) and (T0+0.10)-T0 differ in the
+last bits and fall on different sides of `< 0.1`, i.e. the absolute time would be part of the state (the first
+version of this check used milliseconds; its no-dedup cross-check exposed exactly that at depth 4).  With ticks no sum
+of advances equals a threshold (0.1 s = 102.4 ticks, 1 s = 1024 ticks, all advances are multiples of 10 ticks).
 Configuration = (max, bar width, format, verbosity, min seconds between redraws, output kind).
 Output kinds: "ansi" Output(AnsiFormatter(forced=True)), "plain" Output(PlainFormatter()), "section"
 (a SectionOutput of a forced-ANSI output, COLUMNS=20, a sentinel row above), "quiet" / "quiet-plain" /
@@ -21,7 +27,7 @@ What is enumerated (plan(); every part is complete for its alphabet and depth, t
     broad        the configuration product x all operations x all clock advances, depth 2
     broad-3      (thorough) a covering subset of it, depth 3
     layout, layout-deep, layout-zero
-                 the message formats on ansi/plain/section with clock advances {0, 200 ms} (throttled / drawn)
+                 the message formats on ansi/plain/section with clock advances {0, 200 ticks} (throttled / drawn)
                  or none, all operations, depth 3..5 (thorough 4..7)
     timing       start/advance/set_progress(max)/display/finish x all clock advances, depth 4 (thorough 6)
     timing-elapsed (thorough) the same on formats with %elapsed%, exact clock differences, depth 4
@@ -48,8 +54,7 @@ Oracle (only what the statement demands; see "not demanded" below):
   (and sets max), progress below 0 is clamped to 0, progress above a known max grows the max, finish
   moves to the max (an unknown max becomes the current step)
 * a frame written by advance/set_progress that does not reach the maximum comes no sooner than the configured
-  min interval after the previous write (integer milliseconds of the virtual clock, so float rounding at
-  exactly 100 ms cannot raise an alarm: the bar may or may not draw then)
+  min interval after the previous write (tick difference / 1024 < min interval, exact arithmetic)
 * reaching a known maximum (advance/set_progress) writes a frame; finish writes a frame on the overwriting
   outputs; after finish the last frame written shows current == max (and max, 100 % where the format shows them)
 * ansi: after every write the emulator screen is exactly the latest frame (clear: blank)
@@ -77,12 +82,12 @@ Conventions settled by reading progress_bar.py, NOT demanded (statement silent):
 
 State fingerprint (dedup).  canon() of the bar's complete vars() - no attribute name is hard-coded; the stream
 and the formatter are leaves - in which every number that is a clock reading (>= the virtual epoch) is
-replaced by `now - field` in ms, CAPPED at 1000 ms, plus the emulator (rows, cursor), the reference model,
+replaced by `now - field` in ticks, CAPPED at 1024 ticks (1 s), plus the emulator (rows, cursor), the reference model,
 `now - previous write` (same cap) and the fields shown by the last frame.
 Soundness of the cap: the bar reads the clock only as `time.time() - field`.  For the last-write field the
 result is compared with the min interval (<= 0.1 s) and the max interval (1 s), my oracle compares it with the
-min interval; all are threshold tests with thresholds <= 1000 ms, the clock never goes back and a write resets
-the field to `now`, so two states that differ only in a difference >= 1000 ms take the same branch now and
+min interval; all are threshold tests with thresholds <= 1 s, the clock never goes back and a write resets
+the field to `now`, so two states that differ only in a difference >= 1 s take the same branch now and
 after every further advance.  The start-time field is read only by %elapsed%/%estimated%/%remaining%; for
 formats without these placeholders it is dead.  Formats WITH time placeholders print a function of the
 absolute difference (thresholds up to days): those configurations are explored with exact, uncapped
@@ -99,12 +104,13 @@ from mc.fingerprint import canon
 from mc.term import Term, Unsupported, strip_sgr, wrap_rows
 
 PID = "C16"
-T0 = 1000000.0
+T0 = 1048576.0  # 2**20 s: readings T0 + k * 2**-10 are exact doubles, and so are their differences
+TICK = 1.0 / 1024
 COLS = 20
 SENTINEL = "=SENTRY"
 BIGW = 400  # emulator width for the plain ANSI output: no frame of the alphabet wraps
 NEWMAX = 5
-CAP_MS = 1000
+CAP_TICKS = 1024  # 1 s = the largest threshold the redraw decision compares with
 CLOCKS = (0, 10, 50, 200, 2000)
 MSG = {"short": "go", "long": "a much longer message text", "tagged": "<info>tagged</info>"}
 VISIBLE = {"short": "go", "long": "a much longer message text", "tagged": "tagged"}
@@ -194,7 +200,7 @@ def cfg_has_message(cfg):
 def cfg_cap(cfg):
     if cfg.get("cap", "auto") != "auto":
         return cfg["cap"]
-    return None if any(has_time_placeholder(f) for f in cfg_formats(cfg)) else CAP_MS
+    return None if any(has_time_placeholder(f) for f in cfg_formats(cfg)) else CAP_TICKS
 
 
 def base_ops(cfg, opset="all"):
@@ -294,11 +300,11 @@ def build(cfg):
     elif kind == "section":
         st.term = Term(COLS)
         st.term.feed(SENTINEL + "\n")
-    st.now_ms = 0
+    st.now_t = 0  # ticks since T0
     st.m_step = 0
     st.m_max = max(0, cfg["max"])
     st.msg = None  # key of the current message
-    st.prev_write_ms = None
+    st.prev_write_t = None
     st.last_frame = None  # (current, max, percent) as shown by the last frame written; None fields when not shown
     st.prev_wrapped = False
     st.tail = ""  # plain: text on the last, unterminated line
@@ -333,7 +339,6 @@ class Spec(object):
         self.opset = opset
         self.prefix = tuple(tuple(o) for o in prefix)
         self.cap = cfg_cap(cfg)
-        self.min_ms = int(round(cfg["min"] * 1000))
         self._ops = make_ops(cfg, self.clocks, opset)
         self.formats = cfg_formats(cfg)
         self.nontrivial = set()
@@ -362,20 +367,23 @@ class Spec(object):
             return ("formatter", type(o).__qualname__)
         return None
 
-    def _capped(self, ms):
-        return ms if self.cap is None else min(ms, self.cap)
+    def _capped(self, ticks):
+        return ticks if self.cap is None else min(ticks, self.cap)
 
     def key(self, st):
         now = clock.CLOCK.now
         d = {}
         for k, v in vars(st.bar).items():
             if isinstance(v, (int, float)) and not isinstance(v, bool) and v >= T0 - 1:
-                d[k] = ("clock-delta-ms", self._capped(int(round((now - v) * 1000))))
+                ticks = (now - v) / TICK
+                if ticks != int(ticks):
+                    raise RuntimeError("engine error: clock field %r is not on the tick grid" % k)
+                d[k] = ("clock-delta-ticks", self._capped(int(ticks)))
             else:
                 d[k] = v
         t = st.term
         tk = None if t is None else (tuple(t.screen()), t.r, t.c, t.pending_wrap)
-        dprev = None if st.prev_write_ms is None else self._capped(st.now_ms - st.prev_write_ms)
+        dprev = None if st.prev_write_t is None else self._capped(st.now_t - st.prev_write_t)
         k = (canon(d, self._leaf), tk, st.m_step, st.m_max, st.msg, dprev, st.last_frame, st.prev_wrapped, st.tail)
         if st.drew:
             self.nontrivial.add(hash(k))
@@ -385,8 +393,8 @@ class Spec(object):
     def apply(self, st, op):
         dt, name, arg = op
         cfg = self.cfg
-        st.now_ms += dt
-        clock.CLOCK.now = T0 + st.now_ms / 1000.0
+        st.now_t += dt
+        clock.CLOCK.now = T0 + st.now_t * TICK
         n0 = len(st.stream.writes)
         bar = st.bar
         st.drew = False
@@ -487,12 +495,12 @@ class Spec(object):
         else:
             st.drew = True
             self.frames_checked += 1
-            if name in ("advance", "set_progress") and not at_max and st.prev_write_ms is not None \
-                    and st.now_ms - st.prev_write_ms < self.min_ms:
+            if name in ("advance", "set_progress") and not at_max and st.prev_write_t is not None \
+                    and (st.now_t - st.prev_write_t) * TICK < cfg["min"]:
+                since = (st.now_t - st.prev_write_t) * TICK
                 V.append(report.viol("throttle:redraw-too-soon",
-                                     "%s below the maximum redrew %d ms after the previous write (min interval %d ms)"
-                                     % (name, st.now_ms - st.prev_write_ms, self.min_ms), None,
-                                     ">= %d ms" % self.min_ms, st.now_ms - st.prev_write_ms))
+                                     "%s below the maximum redrew %.4f s after the previous write (min interval %s s)"
+                                     % (name, since, cfg["min"]), None, ">= %s s" % cfg["min"], since))
             vis = strip_sgr(frame)
             lines = vis.split("\n")
             if name == "clear":
@@ -528,7 +536,7 @@ class Spec(object):
                                          None, exp, got))
                 st.prev_wrapped = wrapped
             st.last_frame = shown
-            st.prev_write_ms = st.now_ms
+            st.prev_write_t = st.now_t
         if name == "finish" and not V and st.last_frame is not None:
             cur, smax, pct = st.last_frame
             bad = cur != mx or (smax is not None and smax != mx) or (pct is not None and mx > 0 and pct != 100)
@@ -593,6 +601,9 @@ def probe():
     seen = t.time() if hasattr(t, "time") else t()
     if seen != T0 + 123.25:
         raise RuntimeError("engine error: progress_bar reads %r, virtual clock says %r" % (seen, T0 + 123.25))
+    for a, b in ((15, 5), (10, 0), (1030, 6), (2000 * 9, 7)):
+        if (T0 + a * TICK) - (T0 + b * TICK) != (a - b) * TICK or ((T0 + a * TICK) - T0) / TICK != a:
+            raise RuntimeError("engine error: tick arithmetic is not exact")
     st = build(dict(max=3, width=4, fmt="default", verbosity=0, min=0.1, out="ansi"))
     if st.bar.get_start_time() != T0:
         raise RuntimeError("engine error: ProgressBar start time %r != virtual now %r" % (st.bar.get_start_time(), T0))
@@ -756,12 +767,12 @@ def plan(tier, seed):
         b3 += [C(3, 4, "default", o, 0.1, v) for v in (1, 2) for o in ("ansi", "plain")]
         b3 += [C(3, 4, "default", "quiet", 0.1, 0), C(0, 4, "msg", "ansi", 0.1), C(0, 4, "two", "section", 0.1)]
         part("broad-3", "covering subset of configurations; all operations x all clock advances", b3, depth=3)
-    # ---- layout: all operations, clock advances {0, 200 ms} around the 100 ms throttle (0 = suppressed, 200 = drawn)
+    # ---- layout: all operations, clock advances {0, 200 ticks = 195 ms} around the 100 ms throttle (0 = suppressed, 200 = drawn)
     lay = [C(m, w, f, o, 0.1) for f in ("msg", "two") for o in OUTS3 for (m, w) in [(3, 4), (0, 4), (10, 28)]]
-    part("layout", "message formats x {ansi,plain,section}; all operations x clock advances {0,200} ms, min 0.1", lay,
+    part("layout", "message formats x {ansi,plain,section}; all operations x clock advances {0,200} ticks, min 0.1", lay,
          clocks=(0, 200), depth=4 if T else 3)
     lay2 = [C(3, 4, f, o, 0.1) for f in ("msg", "two") for o in OUTS3]
-    part("layout-deep", "message formats x {ansi,plain,section} at max 3 width 4; all operations x clock advances {0,200} ms",
+    part("layout-deep", "message formats x {ansi,plain,section} at max 3 width 4; all operations x clock advances {0,200} ticks",
          lay2, clocks=(0, 200), depth=5 if T else 4)
     lay0 = [C(m, 4, f, o, 0) for f in ("msg", "two") for o in OUTS3 for m in (3, 0)]
     part("layout-zero", "message formats, throttle off, no clock advance: all operations", lay0, clocks=(0,),
@@ -782,7 +793,7 @@ def xcheck_plan(tier):
     T = tier == "thorough"
     out = [("all-ops", C(3, 4, "msg", "ansi", 0.1), CLOCKS, "all", 2),
            ("progress", C(3, 4, "default", "ansi", 0.1), CLOCKS, "progress", 4 if T else 3),
-           ("progress-plain", C(10, 4, "default", "plain", 0.1), CLOCKS, "progress", 3)]
+           ("progress-plain", C(10, 4, "default", "plain", 0.1), CLOCKS, "progress", 4 if T else 3)]
     return out
 
 
@@ -873,7 +884,7 @@ def main():
                    same_verdict=d["sigs"] == n["sigs"] == u["sigs"])
         if d["capped"] or u["capped"]:
             res["not_compared"] = "the explorer stopped at its violation cap (violations are being reported)"
-        rep.part("xcheck:" + name, cfg=cfg_id(cfg), opset=opset, clocks_ms=list(clocks), **res)
+        rep.part("xcheck:" + name, cfg=cfg_id(cfg), opset=opset, clock_ticks=list(clocks), **res)
         if "not_compared" in res:
             continue
         if not (res["same_fingerprints"] and res["same_verdict"]) or u["states"] < len(d["keys"]):
@@ -886,7 +897,7 @@ def main():
                            "max in {0,1,3,10,50,200} x width {4,28} x {ansi,plain} x min {0,0.1}", cfgs=ramp_cfgs,
                            clocks=CLOCKS, opset="ramp", depth=0)]:
         a = agg.get(p["name"], dict(states=0, transitions=0, unexpanded_at_bound=0, shares_cut_by_violation_cap=0))
-        rep.part(p["name"], what=p["what"], configurations=len(p["cfgs"]), clocks_ms=list(p["clocks"]), opset=p["opset"],
+        rep.part(p["name"], what=p["what"], configurations=len(p["cfgs"]), clock_ticks=list(p["clocks"]), opset=p["opset"],
                  depth=p["depth"], alphabet_size=len(make_ops(p["cfgs"][0], p["clocks"], p["opset"])) if p["depth"] else 1,
                  executed=a.get("shares", 0) > 0,
                  closed=a.get("shares", 0) > 0 and a["unexpanded_at_bound"] == 0 and p["depth"] > 0, **a)
